@@ -5,14 +5,27 @@ package naga
 import (
 	"fmt"
 
+	"github.com/gogpu/naga/internal/zztpl"
 	zz "github.com/gogpu/naga/internal/zzverif"
 )
 
-// Shared by the translation-validation harnesses of all back ends: the template programs
-// (WGSL text + their meaning as a Go function on the buffer words, written from the WGSL
-// specification) and the symbolic inputs.
+// Shared by the translation-validation harnesses of all back ends: the template programs live
+// in internal/zztpl; here are the symbolic inputs.
 
-const zzBufWords = 8
+const zzBufWords = zztpl.BufWords
+
+type zzTemplate = zztpl.Template
+type zzBinTemplate = zztpl.BinTemplate
+
+var (
+	zzTemplatesA   = zztpl.TemplatesA
+	zzTemplatesW   = zztpl.TemplatesW
+	zzBinTemplates = zztpl.BinTemplates
+)
+
+func zzTemplateSource(t zzTemplate) string { return zztpl.Source(t) }
+
+func zzBinAsTemplate(t zzBinTemplate, signed bool) zzTemplate { return zztpl.BinAsTemplate(t, signed) }
 
 func zzInputs() []uint32 {
 	in := make([]uint32, zzBufWords)
@@ -22,254 +35,12 @@ func zzInputs() []uint32 {
 	return in
 }
 
-type zzBinTemplate struct {
-	op  string
-	i32 func(a, b int32) int32
-	u32 func(a, b uint32) uint32
-}
-
-func zzShiftAmount(b uint32) uint32 { return b & 31 }
-
-var zzBinTemplates = []zzBinTemplate{
-	{"+", func(a, b int32) int32 { return a + b }, func(a, b uint32) uint32 { return a + b }},
-	{"-", func(a, b int32) int32 { return a - b }, func(a, b uint32) uint32 { return a - b }},
-	{"*", func(a, b int32) int32 { return a * b }, func(a, b uint32) uint32 { return a * b }},
-	{"/", func(a, b int32) int32 {
-		if b == 0 || (a == -2147483648 && b == -1) {
-			return a
-		}
-		return a / b
-	}, func(a, b uint32) uint32 {
-		if b == 0 {
-			return a
-		}
-		return a / b
-	}},
-	{"%", func(a, b int32) int32 {
-		if b == 0 || (a == -2147483648 && b == -1) {
-			return 0
-		}
-		return a % b
-	}, func(a, b uint32) uint32 {
-		if b == 0 {
-			return 0
-		}
-		return a % b
-	}},
-	{"&", func(a, b int32) int32 { return a & b }, func(a, b uint32) uint32 { return a & b }},
-	{"|", func(a, b int32) int32 { return a | b }, func(a, b uint32) uint32 { return a | b }},
-	{"^", func(a, b int32) int32 { return a ^ b }, func(a, b uint32) uint32 { return a ^ b }},
-}
-
-// ---- general template table: WGSL body + its meaning as a Go function on the buffer ----
-
-type zzTemplate struct {
-	name string
-	ty   string // element type of buf
-	decl string // module-scope declarations (helpers, structs)
-	body string // body of main
-	ref  func(b []uint32)
-}
-
-func zzI(x uint32) int32 { return int32(x) }
-func zzBool(c bool) uint32 {
-	if c {
-		return 1
-	}
-	return 0
-}
-
-var zzTemplatesA = []zzTemplate{
-	{"shl-i32", "i32", "", "buf[2] = buf[0] << u32(buf[1]);", func(b []uint32) { b[2] = b[0] << (b[1] & 31) }},
-	{"shr-i32", "i32", "", "buf[2] = buf[0] >> u32(buf[1]);", func(b []uint32) { b[2] = uint32(zzI(b[0]) >> (b[1] & 31)) }},
-	{"shl-u32", "u32", "", "buf[2] = buf[0] << buf[1];", func(b []uint32) { b[2] = b[0] << (b[1] & 31) }},
-	{"shr-u32", "u32", "", "buf[2] = buf[0] >> buf[1];", func(b []uint32) { b[2] = b[0] >> (b[1] & 31) }},
-	{"neg", "i32", "", "buf[2] = -buf[0];", func(b []uint32) { b[2] = -b[0] }},
-	{"not", "u32", "", "buf[2] = ~buf[0];", func(b []uint32) { b[2] = ^b[0] }},
-	{"select-lt", "i32", "", "buf[2] = select(buf[0], buf[1], buf[0] < buf[1]);", func(b []uint32) {
-		if zzI(b[0]) < zzI(b[1]) {
-			b[2] = b[1]
-		} else {
-			b[2] = b[0]
-		}
-	}},
-	{"cmp-chain-u32", "u32", "", "buf[2] = u32(buf[0] <= buf[1]) + 2u * u32(buf[0] > buf[1]) + 4u * u32(buf[0] == buf[1]) + 8u * u32(buf[0] != buf[1]) + 16u * u32(buf[0] >= buf[1]);",
-		func(b []uint32) {
-			b[2] = zzBool(b[0] <= b[1]) + 2*zzBool(b[0] > b[1]) + 4*zzBool(b[0] == b[1]) + 8*zzBool(b[0] != b[1]) + 16*zzBool(b[0] >= b[1])
-		}},
-	{"cmp-chain-i32", "i32", "", "buf[2] = i32(buf[0] <= buf[1]) + 2 * i32(buf[0] > buf[1]) + 4 * i32(buf[0] < buf[1]) + 8 * i32(buf[0] >= buf[1]);",
-		func(b []uint32) {
-			x, y := zzI(b[0]), zzI(b[1])
-			b[2] = zzBool(x <= y) + 2*zzBool(x > y) + 4*zzBool(x < y) + 8*zzBool(x >= y)
-		}},
-	{"if-else", "i32", "", "if (buf[0] > 3) { buf[2] = buf[0] - buf[1]; } else { buf[3] = buf[1] - buf[0]; }", func(b []uint32) {
-		if zzI(b[0]) > 3 {
-			b[2] = b[0] - b[1]
-		} else {
-			b[3] = b[1] - b[0]
-		}
-	}},
-	{"short-circuit", "i32", "", "if (buf[0] > 0 && buf[1] / buf[0] > 2) { buf[2] = 1; } if (buf[0] == 0 || buf[1] % buf[0] == 0) { buf[3] = 1; }", func(b []uint32) {
-		x, y := zzI(b[0]), zzI(b[1])
-		div := func(p, q int32) int32 {
-			if q == 0 || (p == -2147483648 && q == -1) {
-				return p
-			}
-			return p / q
-		}
-		mod := func(p, q int32) int32 {
-			if q == 0 || (p == -2147483648 && q == -1) {
-				return 0
-			}
-			return p % q
-		}
-		if x > 0 && div(y, x) > 2 {
-			b[2] = 1
-		}
-		if x == 0 || mod(y, x) == 0 {
-			b[3] = 1
-		}
-	}},
-	{"switch", "i32", "", "switch buf[0] { case 1: { buf[2] = 10; } case 2, 3: { buf[2] = 20; } default: { buf[2] = buf[1]; } }", func(b []uint32) {
-		switch zzI(b[0]) {
-		case 1:
-			b[2] = 10
-		case 2, 3:
-			b[2] = 20
-		default:
-			b[2] = b[1]
-		}
-	}},
-	{"for-sum", "u32", "", "var s = 0u; for (var i = 0u; i < 3u; i++) { s += buf[i] * (i + 1u); } buf[4] = s;", func(b []uint32) {
-		b[4] = b[0]*1 + b[1]*2 + b[2]*3
-	}},
-	{"loop-break-continue", "u32", "", "var i = 0u; var s = 0u; loop { if (i >= 4u) { break; } if (buf[i] == 7u) { i++; continue; } s += buf[i]; i++; } buf[5] = s;", func(b []uint32) {
-		var s uint32
-		for i := 0; i < 4; i++ {
-			if b[i] != 7 {
-				s += b[i]
-			}
-		}
-		b[5] = s
-	}},
-	{"while-nested-var", "u32", "", "for (var i = 0u; i < 2u; i++) { var j = 0u; while (j < 1u) { j++; } var t = 1u; t += buf[i]; buf[4u + i] = t; }", func(b []uint32) {
-		b[4] = 1 + b[0]
-		b[5] = 1 + b[1]
-	}},
-	{"helper-call", "i32", "fn f(x: i32, y: i32) -> i32 { if (x < y) { return y - x; } return x * y; }", "buf[2] = f(buf[0], buf[1]) + f(buf[1], 2);", func(b []uint32) {
-		f := func(x, y int32) int32 {
-			if x < y {
-				return y - x
-			}
-			return x * y
-		}
-		b[2] = uint32(f(zzI(b[0]), zzI(b[1])) + f(zzI(b[1]), 2))
-	}},
-	{"pointer-arg", "u32", "fn bump(p: ptr<function, u32>, d: u32) { *p = *p * 2u + d; }", "var v = buf[0]; bump(&v, buf[1]); bump(&v, 1u); buf[2] = v;", func(b []uint32) {
-		v := b[0]
-		v = v*2 + b[1]
-		v = v*2 + 1
-		b[2] = v
-	}},
-	{"vec-swizzle", "i32", "", "let v = vec3<i32>(buf[0], buf[1], buf[2]); let w = v.zyx + vec3<i32>(1, 2, 3) * v.x; buf[3] = w.x; buf[4] = w.y; buf[5] = w.z;", func(b []uint32) {
-		x, y, z := b[0], b[1], b[2]
-		b[3] = z + 1*x
-		b[4] = y + 2*x
-		b[5] = x + 3*x
-	}},
-	{"struct-array-local", "u32", "struct S { a: u32, b: array<u32, 2> }", "var s: S; s.a = buf[0]; s.b[1] = buf[1]; s.b[0] = s.a + s.b[1]; let t = s; buf[2] = t.b[0]; buf[3] = t.b[1] ^ t.a;", func(b []uint32) {
-		b[2] = b[0] + b[1]
-		b[3] = b[1] ^ b[0]
-	}},
-	{"compound-assign", "i32", "", "var x = buf[0]; x += buf[1]; x *= 3; x -= buf[2]; x &= 0xff; x |= 0x100; x ^= buf[3]; x <<= 2u; buf[4] = x;", func(b []uint32) {
-		x := b[0]
-		x += b[1]
-		x *= 3
-		x -= b[2]
-		x &= 0xff
-		x |= 0x100
-		x ^= b[3]
-		x <<= 2
-		b[4] = x
-	}},
-	{"bitcast", "u32", "", "buf[2] = bitcast<u32>(bitcast<i32>(buf[0]) >> 1u) + u32(i32(buf[1]));", func(b []uint32) {
-		b[2] = uint32(zzI(b[0])>>1) + b[1]
-	}},
-	{"dynamic-index", "u32", "", "let i = buf[0] & 3u; buf[4u + (i & 1u)] = buf[i] + 5u;", func(b []uint32) {
-		i := b[0] & 3
-		b[4+(i&1)] = b[i] + 5
-	}},
-}
-
-// zzBinAsTemplate turns an integer binary operator into a template: buf[2] = buf[0] OP buf[1].
-func zzBinAsTemplate(t zzBinTemplate, signed bool) zzTemplate {
-	ty := "u32"
-	if signed {
-		ty = "i32"
-	}
-	return zzTemplate{name: "binary-" + ty + "-" + t.op, ty: ty, body: "buf[2] = buf[0] " + t.op + " buf[1];", ref: func(b []uint32) {
-		if signed {
-			b[2] = uint32(t.i32(int32(b[0]), int32(b[1])))
-		} else {
-			b[2] = t.u32(b[0], b[1])
-		}
-	}}
-}
-
-// ---- templates over workgroup memory and invocation builtins ----
-// They are executed for local invocation (0,0,0) of an ARBITRARY workgroup (symbolic
-// workgroup id) with ARBITRARY stale contents in workgroup memory: WGSL prescribes that every
-// var<workgroup> starts zero-initialised in every workgroup.
-
-var zzWG [3]uint32 // workgroup id of the invocation under evaluation (set by the runner)
-
-var zzTemplatesW = []zzTemplate{
-	{"wg-large-array-read-before-write", "u32", "var<workgroup> tile: array<u32, 300>; var<workgroup> cnt: u32;",
-		"buf[0] = tile[299] + tile[3] + cnt; tile[5] = buf[1]; buf[2] = tile[5] + tile[256]; buf[3] = tile[255] + 1u;", func(b []uint32) {
-			b[0] = 0
-			b[2] = b[1]
-			b[3] = 1
-		}},
-	{"wg-struct-and-small-array", "i32", "struct P { a: i32, b: vec2<i32>, c: array<i32, 3> } var<workgroup> p: P; var<workgroup> q: array<vec2<i32>, 2>;",
-		"buf[0] = p.a + p.b.y + p.c[2] + q[1].x; p.c[1] = buf[1]; buf[2] = p.c[1] - p.c[0]; buf[3] = q[0].y + 7;", func(b []uint32) {
-			b[0] = 0
-			b[2] = b[1]
-			b[3] = 7
-		}},
-	{"wg-builtins-in-struct-arg", "u32", "struct In { @builtin(global_invocation_id) gid: vec3<u32>, @builtin(workgroup_id) wid: vec3<u32> } var<workgroup> acc: array<u32, 4>;",
-		"#args in: In#buf[0] = acc[in.gid.x & 3u] + in.wid.x; buf[1] = in.gid.y + acc[1]; acc[2] = in.wid.z; buf[2] = acc[2] + acc[3];", func(b []uint32) {
-			b[0] = zzWG[0]
-			b[1] = zzWG[1]
-			b[2] = zzWG[2]
-		}},
-	{"wg-builtins-direct-args", "u32", "var<workgroup> acc: array<u32, 4>;",
-		"#args @builtin(local_invocation_id) lid: vec3<u32>, @builtin(workgroup_id) wid: vec3<u32>, @builtin(local_invocation_index) li: u32#buf[0] = acc[lid.x] + wid.y + li; acc[1] = wid.x; buf[1] = acc[1] + acc[0];", func(b []uint32) {
-			b[0] = zzWG[1]
-			b[1] = zzWG[0]
-		}},
-}
-
-// zzTemplateSource renders a template as a WGSL module. A body that starts with
-// "#args <params>#" declares entry-point parameters.
-func zzTemplateSource(t zzTemplate) string {
-	args, body := "", t.body
-	if len(body) > 6 && body[:6] == "#args " {
-		for i := 6; i < len(body); i++ {
-			if body[i] == '#' {
-				args, body = body[6:i], body[i+1:]
-				break
-			}
-		}
-	}
-	return fmt.Sprintf("@group(0) @binding(0) var<storage, read_write> buf: array<%s, 8>;\n%s\n@compute @workgroup_size(1) fn main(%s) {\n%s\n}", t.ty, t.decl, args, body)
-}
-
 // zzDispatch draws the symbolic workgroup id and stale workgroup-memory words.
 func zzDispatch() (wid [3]uint32, garbage []uint32) {
 	for i := range wid {
 		wid[i] = zz.U32(fmt.Sprintf("wid%d", i))
 	}
-	zzWG = wid
+	zztpl.WG = wid
 	garbage = []uint32{zz.U32("stale0"), zz.U32("stale1"), zz.U32("stale2")}
 	return
 }
